@@ -33,6 +33,8 @@ def generic_case(rng: random.Random, max_len: int = 60, allow_nondelimited: bool
     if entry == "sink_serialize":
         cfg["preset"] = (4000, 150, 32)
         cfg["frame_size"] = 250
+    # a batching caller: frames from the generator entry points are gathered in a list before being written
+    cfg["collect"] = entry in ("flat_frames", "stream_frames_sink", "stream_frames_gen") and rng.random() < 0.4
     return cfg, stmts, ns
 
 
@@ -60,6 +62,7 @@ def rdflib_case(rng: random.Random, max_len: int = 40) -> tuple[dict, list, list
         "frame_size": rng.choice(gen.FRAME_SIZES), "preset": preset, "delimited": delimited,
         "logical": pj.FLAT_LOGICAL[phys], "generalized": False, "rdf_star": False,
         "ns": False, "stream_name": "",
+        "collect": entry in ("flat_frames", "stream_frames_gen", "stream_frames_store") and rng.random() < 0.4,
     }
     return cfg, stmts, []
 
@@ -208,3 +211,44 @@ def crafted_header_stream(rng: random.Random, first_frame_len: int = 10):
     data = wire.enc_stream(frames, True)
     return {"data": data, "delimited": True, "events": events, "producer": "crafted-header", "physical": 1,
             "frames": wire.dec_stream(data, True), "mode": "rdf11", "first_frame_len": wire.dec_stream(data, True)[0]["span"][1] - 1}
+
+
+def multi_sink_case(rng: random.Random, with_ns: bool = True):
+    """Several sinks written through ONE stream: (cfg, groups, ns_per_group). Bindings repeat between sinks."""
+    integ = rng.choice(["generic", "rdflib"])
+    grouped = rng.random() < .6
+    arity = rng.choice([3, 4])
+    phys = 1 if arity == 3 else 2
+    logical = (rng.choice([3, 13]) if arity == 3 else rng.choice([4, 14, 114])) if grouped else FLAT_LOGICAL_OF[phys]
+    mode = "rdf11"
+    v = gen.Vocab(rng, mode, n_ns=3, n_local=6)
+    ngroups = rng.randint(2, 5)
+    groups = []
+    for _ in range(ngroups):
+        sts = gen.statements(rng, rng.randint(1, 6), arity, mode, vocab=v)
+        seen, out = set(), []
+        for st in sts:
+            from .refdec import norm_stmt
+            if norm_stmt(st) not in seen:
+                seen.add(norm_stmt(st))
+                out.append(st)
+        groups.append(out)
+    base_ns = bindings(rng, v.ns, k=rng.randint(1, 4)) if with_ns else []
+    nss = []
+    for _ in groups:
+        own = list(base_ns)
+        if with_ns and rng.random() < .4:
+            extra = [b for b in bindings(rng, None, k=2) if b[0] not in {p for p, _ in own} and b[1] not in {i for _, i in own}]
+            own += extra[:1]
+        nss.append(own)
+    allst = [s for g in groups for s in g]
+    need = gen.need_of(allst, phys, True, [("ns", a, b) for n in nss for a, b in n])
+    small = rng.random() < .5
+    preset = (max(8, need[1]) + (0 if small else 60), max(1, need[0]) + (0 if small else 10), max(1, need[2]) + 1)
+    cfg = {"integration": integ, "physical": phys, "logical": logical, "frame_size": rng.choice([1, 3, 250]),
+           "preset": preset, "delimited": True, "generalized": False, "rdf_star": False, "ns": with_ns,
+           "stream_name": "", "via": rng.choice(["frames", "file"]), "collect": rng.random() < .3}
+    return cfg, groups, nss
+
+
+FLAT_LOGICAL_OF = {1: 1, 2: 2, 3: 2}
